@@ -521,9 +521,55 @@ class Executor:
                              world.norm("params_initial", parms))
 
     # -- rate_quality
+    def op_rate_fault(self, op, ev, args, pre):
+        """a rating of this curve is interrupted from outside (fault raised
+        where the rater is obtained); the exception itself is not the
+        library's doing, what it leaves behind is"""
+        from nanite import indent as nindent
+        rargs = world.resolve_rater(op["rater"], self.holder)
+        ev["rater"] = op["rater"]
+        orig = nindent.get_rater
+        state = {"n": 0}
+
+        def faulty(*a, **k):
+            state["n"] += 1
+            raise MemoryError("injected fault while rating")
+        nindent.get_rater = faulty
+        try:
+            self.idnt.rate_quality(regressor=rargs["regressor"],
+                                   training_set=rargs["training_set"],
+                                   names=rargs["names"], lda=rargs["lda"])
+        except MemoryError:
+            pass
+        finally:
+            nindent.get_rater = orig
+        ev["val"] = "hit" if state["n"] else "cached"
+
+    def op_get_rater_kw(self, op, ev, args, pre):
+        """someone else builds a rater with hyper-parameters of their own"""
+        from nanite.rate import rater as nrater
+        rargs = world.resolve_rater(op["rater"], None)
+        ev["rater"] = op["rater"]
+        kw = {"n_estimators": 3, "max_depth": 2} if rargs.get("tree") \
+            and "Decision" not in rargs["regressor"] \
+            and "Ada" not in rargs["regressor"] else {}
+        if "SVR" in rargs["regressor"]:
+            kw = {"C": 0.01}
+        if rargs["regressor"] == "Decision Tree":
+            kw = {"max_depth": 1}
+        if rargs["regressor"] == "AdaBoost":
+            kw = {"n_estimators": 2}
+        if rargs["regressor"] == "Gradient Tree Boosting":
+            kw = {"n_estimators": 2}
+        nrater.get_rater(regressor=rargs["regressor"],
+                         training_set=rargs["training_set"],
+                         names=rargs["names"], lda=rargs["lda"], **kw)
+
     def op_rate(self, op, ev, args, pre):
         rargs = world.resolve_rater(op["rater"], self.holder)
         ev["rater"] = op["rater"]
+        if "obj__" in str(world.RATERS[op["rater"]]["training_set"]):
+            ev["via"] = "obj"
         ev["tree"] = bool(rargs.get("tree", False))
         ev["pseudo"] = str(rargs["regressor"]).lower() == "none"
         call = dict(regressor=rargs["regressor"],
